@@ -8,6 +8,10 @@ module reads one virtual clock). Families, each enumerated exhaustively within i
   offgrid     every arrival sequence of <= 4 / 5 requests with gaps OFF the quarter-period grid ({0, 1/3, 1/7, 1/4000,
               1e-5, 3/2, 3} periods), fractional rates {0.3, 1.5, 10, 20}, fractional periods {0.1, 1, 7}, fractional
               initial tokens {0, 0.5, 2.5}, a non-integer epoch;
+  reads       sequences of <= 3 (thorough 4) requests with gaps {0, 1/4, 1, 2} periods where, before every request, the public
+              read-only property `limiter.tokens` is read 0, 1 or 2 times at chosen instants of the gap (1/2; the arrival
+              instant itself; the instant of the previous request and 1/2; 1/4 and 3/4): a read is an observation and must
+              not change any later wait;
   long        periodic arrival patterns (every pattern of 1 or 2 gaps from 8 gap sizes given in token slots) repeated up to
               3000 / 20000 requests, so that drift accumulates;
   concurrent  callers really suspended on the virtual loop: n simultaneous callers, a second burst after a gap; the caller
@@ -17,6 +21,9 @@ module reads one virtual clock). Families, each enumerated exhaustively within i
               round happens, WHICH of the pending callers are cancelled (every subset), and how many new callers arrive at
               that instant and one and a quarter slots later.
 
+Oracles (reads family in addition): the waits equal those of the same arrival sequence without reads; every value read is
+the whole part of the reference's balance (as left by the last request, or refilled to the instant of the read - the
+statement leaves open which - never negative, capped).
 Oracles: waits >= 0; every wait equals the wait of a textbook token bucket over exact rationals (i.e. the k-th request of
 a burst is delayed by max(0, k - a) / rate); the window bound capacity + rate x L + 1 over every window of the requests
 that were actually sent.
@@ -37,7 +44,7 @@ PROPERTY = "C20"
 RULE = ("case = (tokens per period, period, initial tokens, sequence of gaps between requests) for the grid / offgrid / long "
         "families, (caller kind, configuration, burst sizes, gap) for concurrent callers, (caller kind, configuration, "
         "number of queued callers, instant of the cancellation round, subset cancelled, new arrivals) for the cancel "
-        "family; all cases within the bounds are executed on the real limiter (and the real REST clients) with a "
+        "family, (configuration, sequence of (gap, instants at which `tokens` is read)) for the reads family; all cases within the bounds are executed on the real limiter (and the real REST clients) with a "
         "substituted clock. Distinct = distinct cases; non-trivial = at least one request had to wait.")
 ASSUMPTIONS = [
     "the `time` attribute of basana.core.token_bucket (and of the Binance REST client module) is replaced by a proxy of the "
@@ -45,14 +52,16 @@ ASSUMPTIONS = [
     "compared with the exact-rational reference within 1e-9 (relative and absolute)",
     "for initial tokens > tokens per period both readings of 'available' (capped at once / capped on the first refill) are "
     "accepted, as the statement allows",
+    "`tokens` (an int) may report the balance left by the last request or the balance refilled to the instant of the read; "
+    "both are accepted, with the whole part taken within 1e-9 of a token; reading it must not change any later wait",
     "REST clients: stub HTTP session answering every request with an empty JSON object; a request counts as sent at the "
     "virtual instant at which the client hands it to the session; only the window bound (and completion of every call) is "
     "demanded of the clients, not exact send instants",
     "cancelled callers send nothing; under cancellation only the window bound over the requests that were sent is demanded "
     "(the statement does not say what happens to the token of a caller that gave up)",
 ]
-BOUNDS = {"quick": dict(max_requests=5, offgrid_requests=4, long_requests=3000, cancel_queued=(3, 5)),
-          "thorough": dict(max_requests=6, offgrid_requests=5, long_requests=20000, cancel_queued=(3, 5, 6))}
+BOUNDS = {"quick": dict(max_requests=5, offgrid_requests=4, long_requests=3000, cancel_queued=(3, 5), reads_requests=3),
+          "thorough": dict(max_requests=6, offgrid_requests=5, long_requests=20000, cancel_queued=(3, 5, 6), reads_requests=4)}
 EXPLANATION = ("bounded exhaustive enumeration of arrival sequences, periodic long runs, concurrent callers and cancellation "
                "choices against the real limiter and the real REST clients; every case is an implementation run")
 GAPS = (F(0), F(1, 4), F(1, 2), F(1), F(2), F(5), F(20))
@@ -72,6 +81,11 @@ T0_OFF = 1_700_000_000.37
 LONG_GAPS = (F(0), F(1, 4000), F(1, 7), F(1, 3), F(999, 1000), F(1), F(1001, 1000), F(3))
 LONG_CONFIGS = ((3, 1, 0), (0.3, 0.1, 0.5), (1.5, 7, 2.5), (20, 60, 5), (1, 1, 0))
 
+# read-only observations of `limiter.tokens` between requests: gap (periods) x instants of the reads (fractions of the gap)
+READ_GAPS = (F(0), F(1, 4), F(1), F(2))
+READ_PATTERNS = ((), (F(1, 2),), (F(1),), (F(0), F(1, 2)), (F(1, 4), F(3, 4)))
+READ_CONFIGS = [(tpp, per, init) for tpp in (0.5, 1, 3) for per in (1, 2) for init in (0, 1, 5)]
+
 KINDS = ("wait", "binance", "bitstamp")
 CLIENT_CONFIGS = [(tpp, per, init) for tpp in (0.5, 1, 3) for per in (1, 2) for init in (0, 3)]
 CANCEL_INSTANTS = (F(1, 2), F(7, 4), F(13, 4))  # in slots after the burst
@@ -82,6 +96,7 @@ CANCEL_ARRIVALS_2 = (0, 2)
 def scenarios(tier, seed):
     out = [(tpp, per, init, g0) for tpp in TPPS for per in PERIODS for init in INITS for g0 in range(len(GAPS))]
     out += [("offgrid", tpp, per, init) for tpp in OFF_TPPS for per in OFF_PERIODS for init in OFF_INITS]
+    out += [("reads", tpp, per, init, g0) for (tpp, per, init) in READ_CONFIGS for g0 in range(len(READ_GAPS))]
     out += [("long", c, g0) for c in range(len(LONG_CONFIGS)) for g0 in range(len(LONG_GAPS))]
     out += [("concurrent", "wait", tpp, per, init) for tpp in TPPS for per in PERIODS for init in INITS]
     out += [("concurrent", kind, tpp, per, init) for kind in KINDS[1:] for (tpp, per, init) in CLIENT_CONFIGS]
@@ -426,6 +441,86 @@ def judge(tpp, per, init, times, waits, t0):
     return bad
 
 
+def run_reads_case(tpp, per, init, steps):
+    """steps: ((gap in periods, fractions of the gap at which `tokens` is read), ...), one per request."""
+    clock = _Clock(T0)
+
+    def advance(d):
+        clock.now += d
+    reads = []  # (index of the request that follows, instant, value)
+    with _Patched(lambda: clock.now, advance):
+        tb = token_bucket.TokenBucketLimiter(tpp, per, init)
+        times, waits = [], []
+        t = F(T0)
+        fper = F(per)
+        for i, (g, pattern) in enumerate(steps):
+            for f in pattern:
+                clock.now = float(t + f * g * fper)
+                reads.append((i, F(clock.now), tb.tokens))
+            t += g * fper
+            clock.now = float(t)
+            times.append(F(clock.now))
+            waits.append(tb.consume())
+    bad = judge(tpp, per, init, times, waits, T0)
+    # differential: the same arrivals without the reads
+    _, plain = run_case(tpp, per, init, [g for g, _ in steps], T0)
+    if not close(waits, [F(w) for w in plain]):
+        j = next(j for j in range(len(waits)) if not close(waits[j:j + 1], [F(plain[j])]))
+        bad.append(("read-changes-wait", f"request #{j + 1}: wait {waits[j]!r} after reading `tokens` {len(reads)} times, "
+                    f"{plain[j]!r} for the same arrivals without reads"))
+    # the value read: whole part of the balance left by the last request, or of the balance refilled to now
+    rate = F(tpp) / F(per)
+    eps = F(1, 10 ** 9)
+    ok_sets = []
+    for cap in {F(tpp), max(F(tpp), F(init))}:
+        tokens, last = min(F(init), cap), F(T0)
+        after = []  # balance before request i (i.e. as left by request i - 1) and the instant it dates from
+        for tm in times:
+            after.append((tokens, last))
+            tokens = min(cap, tokens + (tm - last) * rate) - 1
+            last = tm
+        ok_sets.append((cap, after))
+    for i, at, v in reads:
+        accepted = set()
+        for cap, after in ok_sets:
+            stale, last = after[i]
+            fresh = min(cap, stale + (at - last) * rate)
+            for r in (stale, fresh, F(init) if i == 0 else stale):
+                for x in (r - eps, r + eps):
+                    accepted.add(max(0, math.floor(x)))
+        if v not in accepted:
+            bad.append(("tokens-value", f"`tokens` read {v!r} before request #{i + 1} at +{float(at - F(T0))}s; the reference balance "
+                        f"allows {sorted(accepted)}"))
+            break
+    return bad, waits, reads
+
+
+def run_reads(sc, tier, res):
+    _, tpp, per, init, g0 = sc
+    maxn = BOUNDS[tier]["reads_requests"]
+    alphabet = [(g, pat) for g in READ_GAPS for pat in READ_PATTERNS]
+    for first in [(READ_GAPS[g0], pat) for pat in READ_PATTERNS]:
+        for n in range(1, maxn + 1):
+            for tail in itertools.product(alphabet, repeat=n - 1):
+                steps = (first,) + tail
+                bad, waits, reads = run_reads_case(tpp, per, init, steps)
+                res.executions += 1
+                res.transitions += n + len(reads)
+                res.validated += 1
+                key = h64((sc, steps))
+                res.states.add(key)
+                waited = any(w > 0 for w in waits)
+                if waited and reads:
+                    res.nontrivial.add(key)
+                res.outcomes["reads:" + ("some request waits" if waited else "no wait")] += 1
+                case = dict(kind="reads", tokens_per_period=tpp, period=per, initial=init,
+                            steps=[[str(g), [str(f) for f in pat]] for g, pat in steps])
+                if not res.samples and waited and len(reads) >= 2:
+                    res.samples.append(dict(case, waits=waits, values_read=[v for _, _, v in reads]))
+                for clause, detail in bad:
+                    res.violation(f"{PROPERTY}:{clause}:reads", f"{detail}; {case}", case, size=n + len(reads))
+
+
 def run_long(sc, tier, res):
     _, c, g0 = sc
     tpp, per, init = LONG_CONFIGS[c]
@@ -483,6 +578,9 @@ def run_scenario(sc, tier):
     if sc[0] == "long":
         run_long(sc, tier, res)
         return res
+    if sc[0] == "reads":
+        run_reads(sc, tier, res)
+        return res
     if sc[0] == "offgrid":
         _, tpp, per, init = sc
         run_sequences(res, sc, tpp, per, init, OFF_GAPS, OFF_GAPS, BOUNDS[tier]["offgrid_requests"], T0_OFF, "offgrid:")
@@ -505,6 +603,11 @@ def replay(rep):
         print("case:", rep)
         print("  choices:", [(tag, c) for (_, c, tag) in ch.trace], info)
         print("  send times (s after the burst):", [float(g) for g in got])
+        return [f"{c}: {d}" for c, d in bad]
+    if kind == "reads":
+        steps = tuple((F(g), tuple(F(f) for f in pat)) for g, pat in rep["steps"])
+        bad, waits, reads = run_reads_case(rep["tokens_per_period"], rep["period"], rep["initial"], steps)
+        print("case:", rep, "waits:", waits, "values read:", [(i + 1, float(at - F(T0)), v) for i, at, v in reads])
         return [f"{c}: {d}" for c, d in bad]
     if kind == "long":
         tpp, per = rep["tokens_per_period"], rep["period"]
